@@ -434,7 +434,7 @@ func c07RunFSCase(in c07In, base string, idx int) c07FSResult {
 	r := c07FSResult{}
 	r.hist = []string{"fs:variant=" + in.Variant, "fs:window=" + window, fmt.Sprintf("fs:faulted_res=%d", o1.Res),
 		fmt.Sprintf("fs:recover_res=%d", o2.Res), fmt.Sprintf("fs:twin_ok=%v", twin), "fs:class=" + class,
-		fmt.Sprintf("fs:recovery_waited_for_stale_lock=%v", wait > 5*time.Second), "backend=filestorage-sigkill", fmt.Sprintf("fs:recovery_timed_out=%v", timedOut)}
+		fmt.Sprintf("fs:recovery_waited_for_stale_lock=%v", wait > 5*time.Second), "backend=filestorage-sigkill", fmt.Sprintf("fs:recovery_timed_out=%v", timedOut), "fs:keytype=" + in.Cfg.KeyType}
 	key, _ := json.Marshal([]any{"fs", in.Variant, in.Plan})
 	r.c = emit.Case{
 		Desc: map[string]any{"class": class, "variant": in.Variant, "kind": in.Kind, "window": window,
